@@ -1041,3 +1041,48 @@ Proof.
     rewrite insert_at_end by lia. rewrite filter_app, Hn. unfold l_insert.
     rewrite firstn_all2 by exact Hl. rewrite skipn_all2 by exact Hl. reflexivity.
 Qed.
+
+(* ------------------------------------------------------------------ Entry::push on a constructor-built entry *)
+Lemma last_index_sepR rs : Forall relationish rs -> rs <> [] ->
+  last_index is_relation (sepR rs) = Some (4 * length rs - 1).
+Proof.
+  intros H Hne. induction H as [|x r Hx Hr IH]; [congruence|].
+  cbn [sepR flat_map app last_index].
+  change (flat_map (fun r0 => [t_space; t_pipe; t_space; r0]) r) with (sepR r).
+  destruct r as [|y r'].
+  - cbn [sepR flat_map last_index]. rewrite (relationish_is_relation _ Hx). reflexivity.
+  - rewrite IH by discriminate. cbn [length]. f_equal. lia.
+Qed.
+Lemma last_index_join_relations rs : Forall relationish rs -> rs <> [] ->
+  last_index is_relation (join_relations fixed 0 rs) = Some (length (join_relations fixed 0 rs) - 1).
+Proof.
+  intros H Hne. destruct H as [|x r Hx Hr]; [congruence|]. rewrite join_relations_length.
+  rewrite join_relations_0. cbn [last_index]. destruct r as [|y r'].
+  - cbn [sepR flat_map last_index]. now rewrite (relationish_is_relation _ Hx).
+  - rewrite (last_index_sepR _ Hr) by discriminate. cbn [length]. f_equal. lia.
+Qed.
+
+Lemma entry_push_green_canon e r :
+  entry_push_green (centry_tree e) (crel_tree r) = centry_tree (e ++ [r]).
+Proof.
+  unfold entry_push_green, entry_push_plan, centry_tree, entry_from_relations. cbn [children set_children ekind].
+  set (rs := map crel_tree e). assert (H : Forall relationish rs) by apply Forall_relationish_map.
+  rewrite map_app. cbn [map]. fold rs. destruct rs as [|x r'] eqn:E.
+  - reflexivity.
+  - rewrite <- E in *. assert (Hne : rs <> []) by (rewrite E; discriminate).
+    rewrite (last_index_join_relations rs H Hne).
+    assert (Hex : existsb (fun c => kind_is PIPE c || kind_is RELATION c) (join_relations fixed 0 rs) = true).
+    { rewrite E. rewrite join_relations_0. cbn [existsb]. inversion H as [|? ? Hx _]; subst; try congruence.
+      rewrite E in H. inversion H as [|? ? Hx' _]; subst. destruct Hx' as [cs ->]. reflexivity. }
+    rewrite Hex. cbn [negb].
+    assert (Hlen : length (join_relations fixed 0 rs) <> 0) by (rewrite E, join_relations_0; cbn; lia).
+    replace (S (length (join_relations fixed 0 rs) - 1)) with (length (join_relations fixed 0 rs)) by lia.
+    rewrite insert_at_end by lia. f_equal.
+    rewrite E. cbn [app]. rewrite !join_relations_0. rewrite sepR_app. cbn [sepR flat_map app].
+    reflexivity.
+Qed.
+
+(* a constructor-built relation has no white space at either end *)
+Lemma crel_no_ws r : ws_prefix_len (children (crel_tree r)) = 0 /\
+                     ws_prefix_len (rev (children (crel_tree r))) = 0.
+Proof. destruct r as [n [q|] [[vc ver]|] ar pr]; split; reflexivity. Qed.
